@@ -173,11 +173,13 @@ def run(idx: ProgramIndex, rep: Report, tier: str, selftest: bool = True):
         raise AnalysisError("no `factor, info = torch.linalg.cholesky_ex(...)` binding found")
     fac_names = {b.fac for b in binds}  # type: ignore
     info_names = {b.info for b in binds}  # type: ignore
+    all_info_names = info_names
 
     rep.rule("C16.I", "a factor escapes only after its own info codes were tested all-zero", floor=2)
 
-    def success_polarity(test: ast.AST) -> Optional[Tuple[bool, bool]]:
+    def success_polarity(test: ast.AST, info_names=None) -> Optional[Tuple[bool, bool]]:
         """(polarity of the branch meaning 'all info zero', via_trace_mode_escape) for a test on info."""
+        info_names = all_info_names if info_names is None else info_names
         txt = norm(test)
         if not any(i in [x.id for x in ast.walk(test) if isinstance(x, ast.Name)] for i in info_names):
             return None
@@ -221,10 +223,11 @@ def run(idx: ProgramIndex, rep: Report, tier: str, selftest: bool = True):
             return defs[0]
         return None
 
-    def literal_kind(lit) -> Optional[str]:
-        """'success' (this literal says: all info codes are zero), 'escape' (trace mode is on), or None"""
+    def literal_kind(lit, cur_info=None) -> Optional[str]:
+        """'success' (this literal says: all info codes - of the factorization whose info is held by the names `cur_info` - are
+        zero), 'escape' (trace mode is on), or None"""
         e, pol = lit
-        sp = success_polarity(e)
+        sp = success_polarity(e, cur_info)
         if sp is not None and not isinstance(e, ast.BoolOp):
             return "success" if pol == sp[0] else "failure"
         txt = norm(e)
@@ -266,16 +269,27 @@ def run(idx: ProgramIndex, rep: Report, tier: str, selftest: bool = True):
             gen = bind_ids[path[last]]
             ok_kind = None
             conds_txt = []
+            cur_info = {gen.info}  # the names that hold the info codes of THIS factorization (a stale `info` of an earlier
+            # factorization says nothing about the factor that is returned)
             for a_, b_ in zip(path[last:], path[last + 1:]):
                 nd = cfg.nodes[a_]
                 pol = cfg.g[a_][b_].get("pol")
+                if nd.kind == "stmt" and isinstance(nd.ast, ast.Assign) and a_ != path[last]:
+                    reads_info = any(isinstance(x, ast.Name) and x.id in cur_info for x in ast.walk(nd.ast.value))
+                    for t_ in nd.ast.targets:
+                        for x in ast.walk(t_):
+                            if isinstance(x, ast.Name) and isinstance(x.ctx, ast.Store):
+                                if reads_info:
+                                    cur_info.add(x.id)
+                                else:
+                                    cur_info.discard(x.id)
                 if nd.kind != "test" or pol is None:
                     continue
                 conds_txt.append(("" if pol else "not ") + nd.label[:50])
                 alts = _alts(nd.ast, pol, flag_def)
                 kinds = []
                 for alt in alts:
-                    ks = {literal_kind(l) for l in alt}
+                    ks = {literal_kind(l, cur_info) for l in alt}
                     kinds.append("success" if "success" in ks else ("escape" if "escape" in ks else None))
                 if alts and all(k is not None for k in kinds):
                     if "escape" in kinds and gen.id != first_bind_id:
@@ -628,15 +642,23 @@ def run(idx: ProgramIndex, rep: Report, tier: str, selftest: bool = True):
         return out
 
     for want in (True, False):
-        def prune(a, b, pol, want=want):
-            na = pcfg.nodes[a]
-            if na.kind == "test" and pol is not None:
-                if na.label == "upper":
-                    return pol != want
-                if na.label == "not upper":
-                    return pol == want
-            return False
-        paths = list(pcfg.acyclic_paths(prune=prune, limit=500))
+        def feasible(pth: List[int], want=want) -> bool:
+            """The tests of the path can hold together when `upper` has the requested truth value (the public function never
+            rebinds its flag / output parameters; compound and table-driven tests are decided through their literals)."""
+            from ..conds import consistent
+            from ..deps import reads
+
+            tests = []
+            for a, b in zip(pth, pth[1:]):
+                na = pcfg.nodes[a]
+                pol = pcfg.g[a][b].get("pol")
+                if na.kind == "test" and pol is not None and na.ast is not None and not (reads(na.ast) & rebound):
+                    tests.append((na.ast, pol))
+            return consistent(tests, {"upper": want})
+
+        rebound = {t.id for n in walk_body(pub) if isinstance(n, (ast.Assign, ast.AugAssign)) for tt in (
+            n.targets if isinstance(n, ast.Assign) else [n.target]) for t in ast.walk(tt) if isinstance(t, ast.Name)}
+        paths = [p_ for p_ in pcfg.acyclic_paths(limit=2000) if feasible(p_)]
         finals: Set[object] = set()
         for pth in paths:
             par = flips_on(pth) % 2 == 1
